@@ -11,6 +11,9 @@ type ReplayFn = fn(&Cx, &str, &J, &mut Stats) -> CaseResult;
 fn table() -> Vec<(&'static str, RunFn, ReplayFn)> {
     vec![
         ("C01", props::c01::run as RunFn, props::c01::replay as ReplayFn),
+        ("C05", props::c05::run as RunFn, props::c05::replay as ReplayFn),
+        ("C07", props::c07::run as RunFn, props::c07::replay as ReplayFn),
+        ("C11", props::c11::run as RunFn, props::c11::replay as ReplayFn),
         ("C18", props::c18::run as RunFn, props::c18::replay as ReplayFn),
         ("C19", props::c19::run as RunFn, props::c19::replay as ReplayFn),
         ("C20", props::c20::run as RunFn, props::c20::replay as ReplayFn),
